@@ -294,7 +294,7 @@ pub fn run(tier: Tier) -> i32 {
                 for dict in [4096u32, 65536] {
                     let need = total.min(dict as usize) as u64;
                     for m in [0u64, 1, need / 2, need.saturating_sub(1), need, need + 1] {
-                        for how in 0..5 {
+                        for how in 0..8 {
                             items.push((total, dict, m, how, false));
                             items.push((total, dict, m, how, true));
                         }
@@ -347,12 +347,25 @@ pub fn run(tier: Tier) -> i32 {
                     1 => Case::Dec { fmt: Fmt::Lzma, opts: opts(crate::cases::SizeOpt::Header), input: Hex(enc::lzma_file(3, 0, 2, dict, None, &e.payload)), rd: Rd::default(), sk: Sk::default() },
                     2 => Case::Dec { fmt: Fmt::Lzma, opts: opts(crate::cases::SizeOpt::HeaderProvided(Some(total as u64))), input: Hex(enc::lzma_file(3, 0, 2, dict, Some(7), &e.payload)), rd: Rd::default(), sk: Sk::default() },
                     3 => Case::RawLzma { lc: 3, lp: 0, pb: 2, dict, size: Some(total as u64), memlimit: Some(m), ops: vec![RawOp::Dec(Hex(e.payload.clone()))] },
-                    _ => Case::Stream { opts: opts(crate::cases::SizeOpt::Header), sk: Sk::default(), ops: vec![SOp::WriteAll(Hex(enc::lzma_file(3, 0, 2, dict, Some(total as u64), &e.payload))), SOp::Finish] },
+                    4 => Case::Stream { opts: opts(crate::cases::SizeOpt::Header), sk: Sk::default(), ops: vec![SOp::WriteAll(Hex(enc::lzma_file(3, 0, 2, dict, Some(total as u64), &e.payload))), SOp::Finish] },
+                    // Stream that allows incomplete input, fed bytewise (the limit is not "incomplete input")
+                    5 => {
+                        let f = enc::lzma_file(3, 0, 2, dict, Some(total as u64), &e.payload);
+                        let mut ops: Vec<SOp> = f.iter().map(|b| SOp::WriteAll(Hex(vec![*b]))).collect();
+                        ops.push(SOp::Finish);
+                        Case::Stream { opts: Opts { allow_incomplete: true, ..opts(crate::cases::SizeOpt::Header) }, sk: Sk::default(), ops }
+                    }
+                    // raw decoder constructed with the limit, reused: reset(None) / a small decode + reset(Some(size)) first
+                    6 => Case::RawLzma { lc: 3, lp: 0, pb: 2, dict, size: Some(total as u64), memlimit: Some(m), ops: vec![RawOp::Reset, RawOp::Dec(Hex(e.payload.clone()))] },
+                    _ => Case::RawLzma { lc: 3, lp: 0, pb: 2, dict, size: Some(0), memlimit: Some(m), ops: vec![RawOp::Dec(Hex(enc::encode(3, 0, 2, dict as u64, &[]).payload)), RawOp::ResetSize(Some(total as u64)), RawOp::Dec(Hex(e.payload.clone()))] },
                 };
                 let o = run_case(&case);
                 ctx.eval(1);
                 ctx.nontriv(1);
                 ctx.traces.fetch_add(1, Ordering::Relaxed);
+                if sized == false && how >= 5 {
+                    return; // (the marker variant is how == 1 only)
+                }
                 let failed = if o.ops.is_empty() { o.v.is_err() } else { o.ops.iter().any(|r| r.v.is_err()) };
                 let all_ok = if o.ops.is_empty() { o.v.is_ok() } else { o.ops.iter().all(|r| r.v.is_ok()) };
                 let ok = if need <= m { all_ok && o.out.0 == e.expect } else { failed && e.expect.starts_with(&o.out.0) };
@@ -360,7 +373,7 @@ pub fn run(tier: Tier) -> i32 {
                     ctx.violation(&case, &format!("{}, {} output bytes, dict {}, limit {}: needed window {} => {}", if zero_tail { "100 varied bytes then only zero bytes" } else { "one literal then copies only" }, total, dict, m, need, if need <= m { "Ok, identical to unlimited" } else { "Err, delivered bytes a prefix" }), &o, None);
                 }
             });
-            ctx.scope_done(name, items.len() as u64, t0, "size in header / marker / provided size / raw decoder / Stream");
+            ctx.scope_done(name, items.len() as u64, t0, "size in header / marker / provided size / raw decoder / Stream / Stream with allow_incomplete bytewise / reused raw decoder");
         }
     }
     // ---------------------------------------------------------------- a window that wraps needs no more memory than one that is about to wrap
